@@ -15,6 +15,7 @@ import (
 	_ "verifh/enum/dptdec"
 	_ "verifh/enum/dptenc"
 	"verifh/enum/enumlib"
+	_ "verifh/enum/registry"
 )
 
 func main() {
